@@ -182,7 +182,7 @@ def ds_fd(ctx):
             l_, r_ = strip_casts(x.args[1]), strip_casts(x.args[2])
             if (l_ is P('padding_start') and is_ext_call(r_, 'jax.numpy.arange')) or (r_ is P('padding_start') and is_ext_call(l_, 'jax.numpy.arange')):
               masks.add(x)
-    ctx.need('C09.R3', len(masks), 2, 'padding masks in _fd_update_root')
+    ctx.need('C09.R3', len(masks), 1, 'padding masks in _fd_update_root')
     for x in masks:
       ar = [y for y in walk(x) if is_ext_call(y, 'jax.numpy.arange')][0]
       env_m = {'idx': ar, 'ps': P('padding_start')}
@@ -363,6 +363,30 @@ def _svd_summary(ev, bound, rec):
   return T('tuple', T('sub', svd, const(0)), T('sub', svd, const(1)))
 
 
+def _is_nan_fill(t):
+  """a value made only of jnp.full(shape, nan) arrays (the placeholder returned instead of running an SVD on
+  non-finite input)"""
+  if t.op in ('tuple', 'list'):
+    return bool(t.args) and all(_is_nan_fill(a) for a in t.args)
+  if is_ext_call(t, 'jax.numpy.full') and len(t.args[1]) >= 2:
+    v = strip_casts(t.args[1][1])
+    return (v.op == 'ext' and v.args[0].endswith('.nan')) or (is_const(v) and isinstance(cval(v), float) and cval(v) != cval(v))
+  return False
+
+
+def strip_nan_guard(t):
+  """cond(finite?, F(x), nan-fill) -> F(x): the formulas are checked on the arm that computes something"""
+  mp = {}
+  for x in walk(t):
+    if x.op == 'cond' and len(x.args) == 3:
+      if _is_nan_fill(x.args[2]):
+        mp[x] = x.args[1]
+      elif _is_nan_fill(x.args[1]):
+        mp[x] = x.args[2]
+  from ..terms import subst
+  return subst(t, mp) if mp else t
+
+
 def tearfree_sketchy(ctx):
   m = ctx.model
   fi = m.func('tearfree.sketchy', '_update_axis')
@@ -375,13 +399,14 @@ def tearfree_sketchy(ctx):
                'memory_alloc': False, 'options.memory_alloc': False, 'options.relative_epsilon': rel}
       d = Decider(truth=truth, cmps={('options.epsilon', '>', 0): True},
                   extra=lambda c: (True if (c.op == 'cmp' and c.args[0] == '<' and 'len' in show(c, maxdepth=4)) else None))
-      ev = evaluator(m, decide=d, summaries={'_safe_svd': _svd_summary})
+      ev = evaluator(m, decide=d)
       ax = T('rec', m.cls('tearfree.sketchy', '_AxisState').fq, tuple((n, sym('slot', n)) for n in slot_names))
       U = sym('param', fi.short, 'update')
       r = ev.run(fi, args={'axis_state': ax, 'update_sketches': const(True)})
       ctx.evaluations += 1
       if r.op == 'cond':
         r = r.args[1]
+      r = strip_nan_guard(r)
       rf = rec_fields(r)
       if rf is None:
         raise AnalysisError('_update_axis does not return an _AxisState record')
